@@ -165,6 +165,24 @@ func ruleBounds(c *Ctx, r *Report) {
 		k := fnName + "|" + s.what + "|" + nshape
 		key := fmt.Sprintf("%s:%s", fnName, s.what)
 		if rv, ok := coveredBy(reviewed[k], s.goal); ok {
+			// the checks that were in force when the site was reviewed must still be in force
+			lostGuard := ""
+			if st, okB := base[k]; okB && st.Status == "reviewed" {
+				have := map[string]bool{}
+				for _, g := range s.relFacts {
+					have[g] = true
+				}
+				for _, g := range st.Guards {
+					if !have[g] {
+						lostGuard = g
+						break
+					}
+				}
+			}
+			if lostGuard != "" {
+				r.Bad(rule, key, pos, "reviewed-safe site, but a check that was in force when it was reviewed no longer is ("+lostGuard+"): "+shape)
+				continue
+			}
 			nReviewed++
 			used[k] = true
 			r.OKTrivial("bounds-reviewed", key, pos, rv.Verdict+": "+rv.Reason)
@@ -390,9 +408,32 @@ func otherReviewed(c *Ctx, rule, fn, what string) (string, bool) {
 			}
 		}
 	}
-	rs, ok := c.otherRev[rule+"|"+fn+"|"+what]
-	return rs, ok
+	if rs, ok := c.otherRev[rule+"|"+fn+"|"+what]; ok {
+		return rs, true
+	}
+	// the reviewed construct moved into an unexported helper of the reviewed function
+	g := c.Fn(fn)
+	if g == nil {
+		return "", false
+	}
+	for k, rs := range c.otherRev {
+		parts := strings.SplitN(k, "|", 3)
+		if len(parts) != 3 || parts[0] != rule || parts[2] != what {
+			continue
+		}
+		owner := c.Fn(parts[1])
+		if owner == nil || owner == g {
+			continue
+		}
+		for _, u := range c.unitFuncs(owner) {
+			if u == g {
+				return "moved from " + parts[1] + ": " + rs, true
+			}
+		}
+	}
+	return "", false
 }
+
 
 // typeAssertSafe: a non-comma-ok assertion is fine when the operand's dynamic type is
 // established: it is a MakeInterface of that type, or the result of a sync.Pool Get whose New
@@ -830,8 +871,9 @@ func rulePacketQueueProgress(c *Ctx, r *Report) {
 }
 
 type baseSite struct {
-	Status string `json:"status"` // proved | reviewed
-	Goals  string `json:"goals,omitempty"`
+	Status string   `json:"status"` // proved | reviewed
+	Goals  string   `json:"goals,omitempty"`
+	Guards []string `json:"guards,omitempty"` // reviewed sites: the checks in force that mention the index or the container
 }
 
 // loadBoundsBaseline: function|kind|nshape -> how the reviewed tree decided that site.
@@ -895,7 +937,20 @@ func (c *Ctx) genBoundsBaseline() error {
 				continue
 			}
 			prev := base[k]
-			base[k] = baseSite{Status: "reviewed", Goals: mergeGoals(prev.Goals, s.goal)}
+			guards := s.relFacts
+			if prev.Status == "reviewed" {
+				// several sites share the key: keep what all of them have
+				var both []string
+				for _, g := range prev.Guards {
+					for _, h := range s.relFacts {
+						if g == h {
+							both = append(both, g)
+						}
+					}
+				}
+				guards = both
+			}
+			base[k] = baseSite{Status: "reviewed", Goals: mergeGoals(prev.Goals, s.goal), Guards: guards}
 		}
 	}
 	sb, _ := json.MarshalIndent(sites, " ", " ")
